@@ -41,7 +41,22 @@ def dimsJson (keys : List String) : List (String × Json) :=
 /-- keys in first-occurrence order (`dict.update` over the enabled steps) -/
 def uniqueKeys (keys : List String) : List String := keys.eraseDups
 
-def handle (j : Json) : R Json := do
+def decFacts (j : Json) : R StepFacts :=
+  match j with
+  | .arr #[a, b, c, d] => do .ok ⟨← asBool a, ← asBool b, ← asBool c, ← asBool d⟩
+  | _ => .error "facts: expected [enabled, hasKey, modelOn, placeholder]"
+
+/-- verdict of `validate_steps` on the facts the harness read off the configuration (absent: not asked) -/
+def verdict (j : Json) (custom : Bool) : R (List (String × Json)) :=
+  match j.getObjVal? "facts" with
+  | .error _ => .ok []
+  | .ok fj => do
+    let fs ← asList decFacts fj
+    .ok [("valid", Json.str (match validateSteps custom fs with
+      | .ok _ => "ok" | .error .missingKey => "KeyError" | .error .modelNotEnabled => "ValueError"
+      | .error .placeholder => "ValueError"))]
+
+def handleRuns (j : Json) : R Json := do
   let op ← asStr (← fld j "op")
   match op with
   | "product" =>
@@ -77,5 +92,16 @@ def handle (j : Json) : R Json := do
             ("params", ofList (fun kv => Json.arr #[Json.str kv.1, encCVal kv.2]) r.params),
             ("run", ofNat r.runIndex)]) rs)]))
   | _ => .error s!"unknown op {op}"
+
+/-- the runs of the mode (as before) plus, when asked, the validation verdict -/
+def handle (j : Json) : R Json := do
+  let op ← asStr (← fld j "op")
+  let v ← verdict j (op == "custom")
+  match v with
+  | [("valid", Json.str "ok")] | [] =>
+    match ← handleRuns j with
+    | .obj kvs => .ok (Json.mkObj (kvs.toList ++ v))
+    | other => .ok other
+  | _ => .ok (obj (v ++ [("error", Json.str "refused-by-validation")]))
 
 end PyxelModel.C05
